@@ -277,6 +277,10 @@
            ! fudge factor of -0.5 for agreement with single sphere case
            asreshape = reshape(cshift(ascatmat, shift = 1), (/ 2, 2 /), &
                 order = (/ 2, 1 /)) * (-0.5)
+           ! SCSMFO's perpendicular unit vector points opposite to the one
+           ! of Bohren & Huffman used here: S3 and S4 change sign
+           asreshape(1, 2) = -asreshape(1, 2)
+           asreshape(2, 1) = -asreshape(2, 1)
 
            ! calculate scattered fields in spherical coordinates
            call calc_scat_field(kr, phi, asreshape, inc_pol, escat_sph)
